@@ -3,6 +3,7 @@ import re
 
 from analysis.facts import strip_generics, AnchorMissing
 from . import routing as R
+from . import C05 as _C05
 
 EXPLANATION = (
     "Static analysis of the resolved program (MIR of configurations A and B). Decided clauses: "
@@ -36,6 +37,11 @@ def check(run):
         run.guard("C07.2.gate-shape", cfg, lambda: rule_gate_shape(run, F, cfg))
         run.guard("C07.3.set-algebra", cfg, lambda: rule_set_algebra(run, F, cfg))
         run.guard("C07.4.deserialize", cfg, lambda: rule_deserialize(run, F, cfg))
+        b = run.borrow("C05", only=r"field:tag\b", why="rules with different tags must not be fused")
+        run.guard("C07.via.C05.1.fusion-key", cfg, lambda: _C05.rule_key(b, F, cfg))
+        from . import C04 as _C04   # lazy: C04 borrows from this module
+        b2 = run.borrow("C04", only=r"important=>importants|tagged", why="a tagged $important rule is gated through `importants`")
+        run.guard("C07.via.C04.1.routing", cfg, lambda: _C04.rule_routing(b2, F, cfg))
 
 
 def probes(F, run=None):
